@@ -52,4 +52,96 @@ theorem importResource_is_source :
       "{ from := source[key] if from != nil { var to map[string]any if v, ok := target[key]; ok && v != nil { to, ok = v.(map[string]any) if !ok { return fmt.Errorf(\"%s must be a mapping\", key) } } else { to = map[string]any{} } resources, ok := from.(map[string]any) if !ok { return fmt.Errorf(\"%s must be a mapping\", key) } for name, a := range resources { if conflict, ok := to[name]; ok { if same(key, name, a, conflict) { continue } return fmt.Errorf(\"%s.%s conflicts with imported resource\", key, name) } to[name] = a } target[key] = to } return nil }" := by
   rfl
 
+/-! ## round 5: the glue around the six functions
+
+`Options.clone()` is a hand-written list of fields: `clone_copies_every_option` is a statement about the source alone
+(every field of the struct is copied from the receiver), so a field added to `Options` and forgotten in `clone` — or a
+copy dropped — breaks it without any hand-written constant being involved.  (Before fix aa4f0f3 it did not hold:
+`SkipResolveEnvironment` and `SkipDefaultValues` were not copied.) -/
+
+/-- the model's `Opts` has one field per field of `loader.Options`, same names, same order -/
+theorem options_fields_are_source : CV.Gen.Include.optionsFields = Opts.fieldNames := by decide
+
+/-- **`Options.clone()` copies every field of `Options` from its receiver** -/
+theorem clone_copies_every_option :
+    CV.Gen.Include.cloneCopies = CV.Gen.Include.optionsFields.map (fun f => (f, "o." ++ f)) := by decide
+
+/-- what `ApplyInclude` sets on the cloned options, in order: exactly the fields `Opts.forInclude` overrides -/
+theorem include_forced_are_source :
+    CV.Gen.Include.includeForced =
+      [("ResolvePaths", "true"), ("SkipNormalization", "true"), ("SkipConsistencyCheck", "true"), ("ResourceLoaders", "append(loadOptions.RemoteResourceLoaders(), localResourceLoader{ WorkingDir: r.ProjectDirectory, })"), ("Interpolate", "&interp.Options{ Substitute: options.Interpolate.Substitute, LookupValue: config.LookupEnv, TypeCastMapping: options.Interpolate.TypeCastMapping, }")] := by
+  rfl
+
+/-- `Options.clone()` is the function that was modelled (→ `Opts.clone`) -/
+theorem Options_clone_is_source :
+    CV.Gen.Include.body_Options_clone =
+      "{ return &Options{ SkipValidation: o.SkipValidation, SkipInterpolation: o.SkipInterpolation, SkipNormalization: o.SkipNormalization, ResolvePaths: o.ResolvePaths, ConvertWindowsPaths: o.ConvertWindowsPaths, SkipConsistencyCheck: o.SkipConsistencyCheck, SkipExtends: o.SkipExtends, SkipInclude: o.SkipInclude, SkipResolveEnvironment: o.SkipResolveEnvironment, SkipDefaultValues: o.SkipDefaultValues, Interpolate: o.Interpolate, discardEnvFiles: o.discardEnvFiles, projectName: o.projectName, projectNameImperativelySet: o.projectNameImperativelySet, Profiles: o.Profiles, ResourceLoaders: o.ResourceLoaders, KnownExtensions: o.KnownExtensions, Listeners: o.Listeners, } }" := by
+  rfl
+
+/-- `Options.RemoteResourceLoaders()` (every loader but the local one) is the function that was modelled (→ the `ld` argument of `Opts.forInclude`; `remotes = []` in `sameResource` for the default loader) -/
+theorem Options_RemoteResourceLoaders_is_source :
+    CV.Gen.Include.body_Options_RemoteResourceLoaders =
+      "{ var loaders []ResourceLoader for i, loader := range o.ResourceLoaders { if _, ok := loader.(localResourceLoader); ok { if i != len(o.ResourceLoaders)-1 { logrus.Warning(\"misconfiguration of ResourceLoaders: localResourceLoader should be last\") } continue } loaders = append(loaders, loader) } return loaders }" := by
+  rfl
+
+/-- `localResourceLoader.abs` is the function that was modelled (→ `localAbs`) -/
+theorem local_abs_is_source :
+    CV.Gen.Include.body_local_abs =
+      "{ if filepath.IsAbs(p) { return p } return filepath.Join(l.WorkingDir, p) }" := by
+  rfl
+
+/-- `localResourceLoader.Accept` (always true: the loop over loaders of `ApplyInclude` ends at the local one) is the function that was modelled (→ `plan`) -/
+theorem local_Accept_is_source :
+    CV.Gen.Include.body_local_Accept =
+      "{ return true }" := by
+  rfl
+
+/-- `localResourceLoader.Load` is the function that was modelled (→ `localAbs`) -/
+theorem local_Load_is_source :
+    CV.Gen.Include.body_local_Load =
+      "{ return l.abs(p), nil }" := by
+  rfl
+
+/-- `localResourceLoader.Dir` is the function that was modelled (→ `localDir`) -/
+theorem local_Dir_is_source :
+    CV.Gen.Include.body_local_Dir =
+      "{ path := l.abs(originalPath) if !l.isDir(path) { path = l.abs(filepath.Dir(originalPath)) } rel, err := filepath.Rel(l.WorkingDir, path) if err != nil { return path } return rel }" := by
+  rfl
+
+/-- `localResourceLoader.isDir` is the function that was modelled (→ `statDir`) -/
+theorem local_isDir_is_source :
+    CV.Gen.Include.body_local_isDir =
+      "{ fileInfo, err := os.Stat(path) if err != nil { return false } return fileInfo.IsDir() }" := by
+  rfl
+
+/-- `dotenv.GetEnvFromFile` is the function that was modelled (→ `getEnvFromFile` / `getEnvLoop`) -/
+theorem GetEnvFromFile_is_source :
+    CV.Gen.Include.body_GetEnvFromFile =
+      "{ envMap := make(map[string]string) for _, dotEnvFile := range filenames { abs, err := filepath.Abs(dotEnvFile) if err != nil { return envMap, err } dotEnvFile = abs s, err := os.Stat(dotEnvFile) if errors.Is(err, fs.ErrNotExist) || errors.Is(err, syscall.ENOTDIR) { return envMap, fmt.Errorf(\"Couldn't find env file: %s\", dotEnvFile) } if err != nil { return envMap, err } if s.IsDir() { if len(filenames) == 0 { return envMap, nil } return envMap, fmt.Errorf(\"%s is a directory\", dotEnvFile) } b, err := os.ReadFile(dotEnvFile) if os.IsNotExist(err) { return nil, fmt.Errorf(\"Couldn't read env file: %s\", dotEnvFile) } if err != nil { return envMap, err } env, err := ParseWithLookup(bytes.NewReader(b), func(k string) (string, bool) { v, ok := currentEnv[k] if ok { return v, true } v, ok = envMap[k] return v, ok }) if err != nil { return envMap, fmt.Errorf(\"failed to read %s: %w\", dotEnvFile, err) } for k, v := range env { envMap[k] = v } } return envMap, nil }" := by
+  rfl
+
+/-- `types.Mapping.Clone` is the function that was modelled (→ `envMerge`) -/
+theorem Mapping_Clone_is_source :
+    CV.Gen.Include.body_Mapping_Clone =
+      "{ clone := Mapping{} for k, v := range m { clone[k] = v } return clone }" := by
+  rfl
+
+/-- `types.Mapping.Merge` is the function that was modelled (→ `envMerge`) -/
+theorem Mapping_Merge_is_source :
+    CV.Gen.Include.body_Mapping_Merge =
+      "{ for k, v := range o { if _, set := m[k]; !set { m[k] = v } } return m }" := by
+  rfl
+
+/-- `types.ToConfigFiles` is the function that was modelled (→ the `paths` argument of `World.loadModel`) -/
+theorem ToConfigFiles_is_source :
+    CV.Gen.Include.body_ToConfigFiles =
+      "{ for _, p := range path { f = append(f, ConfigFile{Filename: p}) } return }" := by
+  rfl
+
+/-- `transform.transformInclude` (the canonical form of one `include` element) is the function that was modelled (→ `cfgOf` (string = `{path: s}`)) -/
+theorem transformInclude_is_source :
+    CV.Gen.Include.body_transformInclude =
+      "{ switch v := data.(type) { case map[string]any: return v, nil case string: return map[string]any{ \"path\": v, }, nil default: return data, fmt.Errorf(\"%s: invalid type %T for external\", p, v) } }" := by
+  rfl
+
 end CV.Include
